@@ -227,7 +227,20 @@ def gen_op(rnd, p, prof, last_build=None):
         b = ('build', [top], dict(j=j, keep=rnd.random() < prof['p_keep'], forced=False))
         return [b, ('flag', n, 1), b, b, ('flag', n, 0), b, b]
     if op == 'uwrite':
-        return ('uwrite', rnd.choice(tnames), rnd.choice(['inplace', 'replace']))
+        return ('uwrite', rnd.choice(tnames), rnd.choice(['inplace', 'replace', 'symlink'] if prof.get('user_symlinks') else ['inplace', 'replace']))
+    if op == 'edit_back':
+        c = [n for n in sorted(p.sources) if p.sources[n]['r'] > 0]
+        return ('edit_back', rnd.choice(c)) if c else None
+    if op == 'm_stampflip':
+        # a target that records a checksum in some builds only: stamped on content X1, rebuilt unstamped on X2, stamped again on X1
+        st = [n for n in tnames if p.targets[n].get('stamp') and p.dependents(n) and any(d in p.sources for d in p.curdeps(n))]
+        if not st:
+            return None
+        s_ = rnd.choice(st)
+        src = rnd.choice([d for d in p.curdeps(s_) if d in p.sources])
+        top = rnd.choice(sorted(p.dependents(s_)))
+        b = ('build', [top], dict(j=1, keep=False, forced=False))
+        return [b, ('edit_r', src), ('stampflip', s_), b, ('edit_back', src), ('stampflip', s_), b, b]
     if op == 'urm':
         return ('urm', rnd.choice(tnames))
     return None
